@@ -190,6 +190,56 @@ def symlink_case(item):
             os.chdir(old)
 
 
+def bigfile_case(item):
+    """The importing file is large (tens of KiB, still below the line / column limits of the installed binding): where imports are
+    located must not depend on the size of the file that contains them."""
+    cwd_kind, spelling, kib = item
+    from nix_manipulator import parse_file
+
+    with tempfile.TemporaryDirectory() as root:
+        root = os.path.realpath(root)
+        pad = "".join('  pad%03d = "%s";\n' % (k, "x" * 200) for k in range(max(1, kib * 1024 // 216)))
+        assert pad.count("\n") < 230
+        files = {
+            "main/big.nix": "{\n" + pad + "  lib = import ../lib/default.nix;\n  gone = import ../lib/nope.nix;\n}\n",
+            "lib/default.nix": '{\n  version = "real";\n  deep = import ./sub/leaf.nix;\n}\n',
+            "lib/sub/leaf.nix": "{\n  v = 1;\n}\n",
+            # decoys at the same relative places seen from other directories
+            "other/lib/default.nix": '{\n  version = "decoy";\n  deep = import ./sub/leaf.nix;\n}\n',
+            "other/lib/sub/leaf.nix": "{\n  v = -1;\n}\n",
+            "other/lib/nope.nix": '{\n  version = "decoy for a missing file";\n}\n',
+            "other/work/x": "",
+        }
+        for rel, content in files.items():
+            p = os.path.join(root, rel)
+            os.makedirs(os.path.dirname(p), exist_ok=True)
+            with open(p, "w") as fh:
+                fh.write(content)
+        dirs = {"root": root, "main": os.path.join(root, "main"), "work": os.path.join(root, "other", "work")}
+        old = os.getcwd()
+        os.chdir(dirs[cwd_kind])
+        bad = []
+        try:
+            entry_abs = os.path.join(root, "main", "big.nix")
+            entry = entry_abs if spelling == "absolute" else os.path.relpath(entry_abs, dirs[cwd_kind])
+            for keys, expected in ((["lib", "version"], '"real"'), (["lib", "deep", "v"], "1"), (["gone", "version"], OSError)):
+                try:
+                    cur = parse_file(entry)
+                    for k in keys:
+                        cur = cur[k]
+                    got = cur.rebuild().strip()
+                except Exception as e:
+                    got = e
+                if isinstance(expected, type):
+                    if not isinstance(got, expected):
+                        bad.append(f"big-file:{'.'.join(keys)}:expected-{expected.__name__}-got-{type(got).__name__ if isinstance(got, Exception) else got}")
+                elif got != expected:
+                    bad.append(f"big-file:{'.'.join(keys)}:got-{type(got).__name__ if isinstance(got, Exception) else got}")
+            return bad
+        finally:
+            os.chdir(old)
+
+
 def history_case(_=None):
     """Two directory trees with the same layout, same file sizes and same mtimes (like the Nix store), visited one
     after the other in ONE process with relatively spelled entry paths: the second visit must read the second tree."""
@@ -243,7 +293,14 @@ def run(tier, seed):
         cres = pool.map(chdir_case, citems, chunksize=1)
         sitems = [(c, sp, v) for c in ("root", "link", "elsewhere") for sp in ("absolute", "relative") for v in ("plain", "both-bases", "real-sibling-missing")]
         sres = pool.map(symlink_case, sitems, chunksize=1)
+        bitems = [(c, sp, kib) for c in ("root", "main", "work") for sp in ("absolute", "relative") for kib in (4, 20, 45)]
+        bres = pool.map(bigfile_case, bitems, chunksize=1)
     vio = []
+    for it, bad in zip(bitems, bres):
+        for b in bad:
+            vio.append(dict(check="imports-bigfile", signature=f"{b}|{it[2]}KiB|cwd={it[0]}|entry={it[1]}", what=f"C17 {b} (importing file of about {it[2]} KiB; {it})",
+                            has_input=True, inputs={"bigfile": list(it)},
+                            failing_input={"inputs": {"cwd": it[0], "spelling": it[1], "size_kib": it[2]}, "observed": b, "origin": "generated layout"}))
     for it, bad in zip(sitems, sres):
         for b in bad:
             vio.append(dict(check="imports-symlink", signature=f"{b}|{it[2]}|cwd={it[0]}|entry={it[1]}", what=f"C17 {b} (entry etc/nixos/configuration.nix, etc/nixos a link; {it})",
@@ -264,11 +321,11 @@ def run(tier, seed):
             vio.append(dict(check="imports", signature=sig, what=f"C17 lookup {b} with cwd={it[0]}, entry spelled {it[1]}", has_input=True,
                             inputs={"cwd": it[0], "spelling": it[1]},
                             failing_input={"inputs": {"cwd": it[0], "spelling": it[1], "lookup": b}, "observed": b, "origin": "generated layout"}))
-    n = (len(items) + len(citems)) * len(LOOKUPS) + len(sitems)
+    n = (len(items) + len(citems)) * len(LOOKUPS) + len(sitems) + 3 * len(bitems)
     return dict(evaluations=n, distinct_nontrivial=n,
                 rule="a generated directory tree (sibling, child, parent, ./ and ../, absolute, parenthesised, chains of 1-4 hops through three "
                      "directories, decoy files of the same names elsewhere) x 4 working directories x 3 spellings of the entry path x 12 lookups "
-                     "incl. the three error cases; plus a directory reached through a symbolic link (3 working directories x 2 spellings x 3 variants)",
+                     "incl. the three error cases; plus a directory reached through a symbolic link (3 working directories x 2 spellings x 3 variants) and importing files of 4 / 20 / 45 KiB (3 x 2 x 3)",
                 samples=[dict(cwd=i[0], entry=i[1]) for i in items[:3]], exhaustive=True, violations=vio, seconds=time.time() - t0)
 
 
@@ -276,6 +333,13 @@ def replay(v):
     if v["inputs"].get("chdir"):
         bad = chdir_case(tuple(v["inputs"]["chdir"]))
         print("chdir ->", bad)
+        if bad:
+            print("VIOLATION property=C17 replay=<given>")
+            return 1
+        return 0
+    if v["inputs"].get("bigfile"):
+        bad = bigfile_case(tuple(v["inputs"]["bigfile"]))
+        print("bigfile ->", bad)
         if bad:
             print("VIOLATION property=C17 replay=<given>")
             return 1
